@@ -83,6 +83,7 @@ type DeployCfg struct {
 	SignSP       scripted.Params   `json:"signSp"`
 	PickUnsorted bool              `json:"pickUnsorted,omitempty"`
 	PickFixed    []uint16          `json:"pickFixed,omitempty"` // silent mode: members returned for every topic (truncated to the expected count)
+	PSMsgLen     int               `json:"psMsgLen,omitempty"`
 }
 
 type Deployment struct {
